@@ -244,8 +244,6 @@ class SARSA(TemporalDifferenceLearning):
         q = self._initial_q_table(mdp)
         for ep in range(self.episodes):
             s = mdp.initial_state_dist().sample(rng=rng)
-            if s not in q:
-                q[s] = {a: self.initial_q(s, a) for a in mdp.actions(s)}
             a = epsilon_softmax_sample(q[s], self.rand_choose, self.softmax_temp, rng)
             while not mdp.is_absorbing(s):
                 # get next state, reward, next action
